@@ -211,6 +211,9 @@ class FieldNameResolver:
             else:
                 name = f"{self.special_field_name_prefix}{name}"
                 break
+        if not name or not name[0].isidentifier():
+            # removing the underscores exposed a character that cannot start an identifier (or nothing at all)
+            name = f"{self.special_field_name_prefix}_{name}"
         if self.capitalise_enum_members or (self.snake_case_field and not ignore_snake_case_field):
             name = camel_to_snake(name)
         count = 1
